@@ -294,24 +294,51 @@ Non-trivial = text with a character the normaliser changes, a multi-byte charact
         || stream_strategy(false),
         test_stream,
     );
-    rep.run_enum(
-        "token-stream-long-texts",
-        "deterministic long texts (50,000, 65,536, 70,000 and 131,080 characters: multi-byte, \
-half-width characters the normaliser rewrites, CR/LF every 997 characters) with wsconst \"\", \
-\"DG\", \"O\", \"DGR\"; same oracle",
-        false,
-        [("", 50_000usize), ("DG", 65_536), ("O", 70_000), ("DGR", 131_080)].into_iter().map(|(ws, n)| {
+    let long_spec = || {
+        let mut spec = ModelSpec { char_window: 2, type_window: 2, bias: -3, ..ModelSpec::default() };
+        spec.char_ngrams.push(vcommon::mirror::NgramSpec { ngram: "火星".into(), weights: vec![5, -5, 7] });
+        spec.char_ngrams.push(vcommon::mirror::NgramSpec { ngram: "星".into(), weights: vec![1, 2, -3, 4] });
+        spec.type_ngrams.push(vcommon::mirror::NgramSpec { ngram: vec![5, 4], weights: vec![2, 9, -1] });
+        spec.dict.push(vcommon::mirror::WordSpec { word: "猫火".into(), weights: vec![6, -6, 6], comment: String::new() });
+        spec
+    };
+    let mut long_cases: Vec<StreamCase> = [("", 50_000usize), ("DG", 65_536), ("O", 70_000), ("DGR", 131_080)]
+        .into_iter()
+        .map(|(ws, n)| {
             let pool = ['火', '星', 'ｱ', 'a', '1', '。', '𠀋', 'あ', 'ｶ', 'ﾞ', '-', '猫'];
             let text: String = (0..n)
                 .map(|i| if i % 997 == 0 { '\n' } else if i % 997 == 996 { '\r' } else { pool[(i * 7 + i / 11) % pool.len()] })
                 .collect();
-            let mut spec = ModelSpec { char_window: 2, type_window: 2, bias: -3, ..ModelSpec::default() };
-            spec.char_ngrams.push(vcommon::mirror::NgramSpec { ngram: "火星".into(), weights: vec![5, -5, 7] });
-            spec.char_ngrams.push(vcommon::mirror::NgramSpec { ngram: "星".into(), weights: vec![1, 2, -3, 4] });
-            spec.type_ngrams.push(vcommon::mirror::NgramSpec { ngram: vec![5, 4], weights: vec![2, 9, -1] });
-            spec.dict.push(vcommon::mirror::WordSpec { word: "猫火".into(), weights: vec![6, -6, 6], comment: String::new() });
-            StreamCase { spec, texts: vec![text], wsconst: ws.to_string() }
-        }),
+            StreamCase { spec: long_spec(), texts: vec![text], wsconst: ws.to_string() }
+        })
+        .collect();
+    // single tokens of 65,535 / 65,536 / 65,537 / 70,000 / 210,000 bytes: runs of one character
+    // type kept together by wsconst, and a model that predicts no boundary at all
+    for (ws, unit, n) in [
+        ("D", "1234567890", 7_000usize),
+        ("R", "a", 65_535),
+        ("R", "a", 65_536),
+        ("R", "b", 65_537),
+        ("K", "漢字", 10_923),
+        ("O", "。", 21_846),
+        ("T", "ｱ", 70_000),
+    ] {
+        let text = format!("火星猫{}円の東京特許許可局 ab 12", unit.repeat(n));
+        long_cases.push(StreamCase { spec: long_spec(), texts: vec![text.clone(), format!("{text}\n{text}")], wsconst: ws.to_string() });
+    }
+    long_cases.push(StreamCase {
+        spec: ModelSpec { char_window: 1, type_window: 1, bias: -1, ..ModelSpec::default() },
+        texts: vec!["猫あa1".repeat(17_500), "x".repeat(65_536), "é".repeat(32_768)],
+        wsconst: String::new(),
+    });
+    rep.run_enum(
+        "token-stream-long-texts",
+        "deterministic long texts (50,000, 65,536, 70,000 and 131,080 characters: multi-byte, \
+half-width characters the normaliser rewrites, CR/LF every 997 characters) with wsconst \"\", \
+\"DG\", \"O\", \"DGR\"; single tokens of 65,535 to 210,000 bytes (runs of one character type \
+under the matching wsconst, a model that predicts no boundary); same oracle",
+        false,
+        long_cases.into_iter(),
         test_stream,
     );
     // probe of the known finding: texts containing U+0000
